@@ -62,7 +62,7 @@ pub fn all() -> Vec<Check> {
         Check {
             prop: "C10",
             level: "exploration",
-            parts: vec![part(C, 0, 40_000, 3_000_000, "real producer thread x real consumer thread under the baton scheduler (random / sticky / PCT), lock and wake granularity")],
+            parts: vec![part(C, 0, 150_000, 15_000_000, "real producer thread x real consumer thread under the baton scheduler (random / sticky / PCT), lock and wake granularity")],
             rule: "one run = producer program (<= 6 ops of write/flush/wait-until-delivered/abort/drop) x consumer loop (park on Pending, <= 2 spurious re-polls, same or fresh waker) x one schedule; non-trivial = at least one context switch; distinct = distinct (thread, event kind) sequences",
             assumptions: vec!["all state shared between BodyWriter and Body lives under the one instrumented mutex (chunker.rs), so lock-granularity interleaving is complete w.r.t. observable behaviour; a change adding atomics/unsafe shared state would need new scheduling points"],
         },
@@ -70,7 +70,7 @@ pub fn all() -> Vec<Check> {
             prop: "C11",
             level: "fault_enumeration",
             parts: vec![part(B, 0, 300_000, 20_000_000, "abort / body-drop injected at every position of chunk-sim histories, plus queue-release scenarios"),
-                        part(C, 0, 40_000, 3_000_000, "abort and body drop racing with the other side under the baton scheduler")],
+                        part(C, 0, 100_000, 8_000_000, "abort and body drop racing with the other side under the baton scheduler")],
             rule: "fault = abort or body drop at a drawn position of a drawn operation history (raw and gzip); non-trivial = the fault was injected and judged; the release scenarios measure this thread's live heap bytes",
             assumptions: vec!["a flush with nothing at all to hand over may return Ok after the body was dropped (weaker reading, see DESIGN.md 4.8)"],
         },
@@ -86,7 +86,7 @@ pub fn all() -> Vec<Check> {
             level: "exploration",
             parts: vec![part(A, 0, 2_000_000, 100_000_000, "size_hint/is_end_stream sampled before every poll of serve() bodies and of Body::from/empty"),
                         part(B, 0, 300_000, 20_000_000, "the same monitor on streaming bodies across write/flush/abort/drop histories"),
-                        part(C, 0, 30_000, 2_000_000, "the same monitor sampled concurrently with a running producer thread"),
+                        part(C, 0, 60_000, 4_000_000, "the same monitor sampled concurrently with a running producer thread"),
                         part(D, 0, 20_000, 1_000_000, "the same monitor on serve(ChunkedReadFile) bodies incl. truncation")],
             rule: "every poll of every run is preceded by a sample; non-trivial = more than one sample; distinct as C01",
             assumptions: vec!["for serve() only contract-honouring entities count: fault-free streams and streams failing early with an Err"],
@@ -116,7 +116,8 @@ pub fn all() -> Vec<Check> {
         Check {
             prop: "C18",
             level: "fault_enumeration",
-            parts: vec![part(D, 0, 40_000, 2_000_000, "real ChunkedReadFile over real files; truncate/extend/short read/EINTR/EIO at a drawn read instant; metadata scenarios")],
+            parts: vec![part(D, 0, 40_000, 2_000_000, "real ChunkedReadFile over real files; truncate/extend/short read/EINTR/EIO at a drawn read instant; metadata scenarios"),
+                        part(D, 1, 40_000, 3_000_000, "two streams over one ChunkedReadFile on two simulated threads, interleaved at every lseek/read/pread (system-call seam)")],
             rule: "one run = file size class x range shape x read-size policy x (optional) one fault at a drawn read index, polled directly or through serve(); non-trivial = a non-empty range was streamed and judged (or a metadata scenario ran); grid = size class | range shape | fault | read index | via serve",
             assumptions: vec!["the file system under /verif/sim/target/filesim behaves like a local POSIX file system (pread returns 0 at/after EOF)"],
         },
